@@ -52,6 +52,8 @@ def write(prop, mod, subs, names, results, args, wall, violation_paths, known_hi
         for r in rs[:1]:
             for c in (r["nontrivial_samples"][:2] or r["samples"][:1]):
                 samples.append({"subcheck": n, "case": c})
+    rep = [r for r in results if r["sub"] == "__replays__"]
+    replayed = sum(r["examples"] for r in rep)
     if not samples:
         samples = [{"note": "no cases executed"}]
     doc = {
@@ -65,6 +67,7 @@ def write(prop, mod, subs, names, results, args, wall, violation_paths, known_hi
             "rule": getattr(mod, "RULE", "see per-sub-check rules"),
             "samples": samples,
             "subchecks": per_sub,
+            "saved_inputs_replayed": int(replayed),
             "known_findings_hit": {k: {"count": v["count"], "detail": v.get("detail", "")[:300]}
                                    for k, v in known_hits.items()},
             "violation_replays": violation_paths,
